@@ -79,6 +79,7 @@ type VFlow struct {
 	allocIdx map[string]*ssa.Alloc
 	ctx      []ssa.CallInstruction // call-site context of the query in progress (innermost last)
 	stopAt   func(*ssa.Call) bool  // resolve(): calls the caller wants to see instead of their results
+	boxed    map[*types.Named][]ssa.Value
 }
 
 // transparent transformers: result is derived from the listed operands only.
@@ -293,6 +294,20 @@ func (vf *VFlow) walk(v ssa.Value, fl uint8, out LabelSet, seen map[string]bool,
 			}
 		}
 		cs := vf.callers[fn]
+		if len(cs) == 0 && idx == 0 && fn.Signature.Recv() != nil {
+			// receiver of a method that is only called through an interface (a ResponseWriter wrapper handed to a
+			// handler): for an unexported type every object is created in the module, and the ones that can be
+			// behind an interface are those converted to one
+			if objs := vf.boxedObjects(fn.Signature.Recv().Type()); len(objs) > 0 {
+				for _, o := range objs {
+					saved := vf.ctx
+					vf.ctx = nil
+					vf.walk(o, fl, out, seen, depth+1)
+					vf.ctx = saved
+				}
+				return
+			}
+		}
 		if len(cs) == 0 || idx < 0 {
 			out.add(vf.paramLabel(x), fl)
 			return
@@ -710,7 +725,7 @@ func (vf *VFlow) objLabels(v ssa.Value, depth int) LabelSet {
 			if strings.HasPrefix(l, "via:") {
 				continue
 			}
-			out.add(l+"."+fv.Name(), 0)
+			out.add(l+"."+fname(fv), 0)
 		}
 	case *ssa.IndexAddr:
 		for l := range vf.objLabels(x.X, depth+1) {
@@ -751,12 +766,12 @@ func (vf *VFlow) loadField(base LabelSet, fv *types.Var, fl uint8, out LabelSet,
 		case strings.HasPrefix(l, "param:") && !strings.Contains(l[strings.LastIndex(l, "/"):], "."):
 			// an object handed in from outside (receiver of a method called by storage): it may be
 			// any object of that type allocated in scope, so in-scope stores to the field are visible
-			out.add(l+"."+fv.Name(), fl)
+			out.add(l+"."+fname(fv), fl)
 			for _, st := range vf.fstores[fv] {
 				vf.walk(st.Val, fl, out, seen, depth+1)
 			}
 		default:
-			out.add(l+"."+fv.Name(), fl)
+			out.add(l+"."+fname(fv), fl)
 		}
 	}
 }
@@ -765,7 +780,7 @@ func (vf *VFlow) loadField(base LabelSet, fv *types.Var, fl uint8, out LabelSet,
 // sub-path such as ".Assertion"): the stores made to that field through pointers that
 // may denote the same object, plus whole-object copies into it.
 func (vf *VFlow) loadAllocField(l string, fv *types.Var, fl uint8, out LabelSet, seen map[string]bool, depth int) {
-	k := "F|" + l + "|" + fv.Name() + fmt.Sprintf("|%d", fl)
+	k := "F|" + l + "|" + fname(fv) + fmt.Sprintf("|%d", fl)
 	if seen[k] {
 		return
 	}
@@ -797,7 +812,7 @@ func (vf *VFlow) loadAllocField(l string, fv *types.Var, fl uint8, out LabelSet,
 			}
 			if vf.decoded[cell] {
 				n++
-				out.add("decoded:"+typeKey(cell.Type().Underlying().(*types.Pointer).Elem())+"."+fv.Name(), fl)
+				out.add("decoded:"+typeKey(cell.Type().Underlying().(*types.Pointer).Elem())+"."+fname(fv), fl)
 			}
 		} else if sub == "[]" {
 			// an element of a local array / slice literal: whole-struct stores into its slots
@@ -819,7 +834,7 @@ func (vf *VFlow) loadAllocField(l string, fv *types.Var, fl uint8, out LabelSet,
 			// sub-object path: stores of whole structs into the enclosing field
 			parentL, last := l[:strings.LastIndex(l, ".")], l[strings.LastIndex(l, ".")+1:]
 			for pfv, sts := range vf.fstores {
-				if pfv.Name() != last {
+				if fname(pfv) != last {
 					continue
 				}
 				for _, st := range sts {
@@ -835,7 +850,7 @@ func (vf *VFlow) loadAllocField(l string, fv *types.Var, fl uint8, out LabelSet,
 			}
 			if vf.decoded[cell] {
 				n++
-				out.add("decoded:"+typeKey(cell.Type().Underlying().(*types.Pointer).Elem())+sub+"."+fv.Name(), fl)
+				out.add("decoded:"+typeKey(cell.Type().Underlying().(*types.Pointer).Elem())+sub+"."+fname(fv), fl)
 			}
 		}
 	}
@@ -961,7 +976,7 @@ func (vf *VFlow) FieldStoreSources(owner, name string) (LabelSet, []*ssa.Store) 
 	out := LabelSet{}
 	var sites []*ssa.Store
 	for fv, sts := range vf.fstores {
-		if fv.Name() != name {
+		if fname(fv) != name {
 			continue
 		}
 		for _, st := range sts {
@@ -1056,7 +1071,7 @@ func (vf *VFlow) NestedFieldSources(owner, field, innerOwner, innerField string)
 		}
 	}
 	for fv, sts := range vf.fstores {
-		if fv.Name() != innerField {
+		if fname(fv) != innerField {
 			continue
 		}
 		for _, st := range sts {
@@ -1210,7 +1225,7 @@ func (vf *VFlow) objLabelsCtx(v ssa.Value, depth int) LabelSet {
 		fv := fieldVar(x.X.Type(), x.Field)
 		for l := range vf.objLabelsCtx(x.X, depth+1) {
 			if !strings.HasPrefix(l, "via:") {
-				out.add(l+"."+fv.Name(), 0)
+				out.add(l+"."+fname(fv), 0)
 			}
 		}
 	case *ssa.IndexAddr:
@@ -1229,4 +1244,28 @@ func (vf *VFlow) objLabelsCtx(v ssa.Value, depth int) LabelSet {
 		}
 	}
 	return out
+}
+
+// boxedObjects: for an unexported named type of the module, the values of that type (or pointer to it) converted to
+// an interface anywhere in the module.
+func (vf *VFlow) boxedObjects(t types.Type) []ssa.Value {
+	n := namedOf(t)
+	if n == nil || n.Obj().Exported() || n.Obj().Pkg() == nil || !isModulePath(n.Obj().Pkg().Path()) {
+		return nil
+	}
+	if vf.boxed == nil {
+		vf.boxed = map[*types.Named][]ssa.Value{}
+		for _, fn := range vf.cx.W.Funcs {
+			for _, b := range fn.Blocks {
+				for _, in := range b.Instrs {
+					if mi, ok := in.(*ssa.MakeInterface); ok {
+						if m := namedOf(mi.X.Type()); m != nil && !m.Obj().Exported() {
+							vf.boxed[m] = append(vf.boxed[m], mi.X)
+						}
+					}
+				}
+			}
+		}
+	}
+	return vf.boxed[n]
 }
